@@ -271,6 +271,11 @@ func (p *Parser) lookupManipulatorFunc(funcName, optName string, pos token.Pos) 
 		return nil, logger.Errorf("%v: function %v cannot use for %v func", p.fset.Position(pos), funcName, optName)
 	}
 
+	if sig.Params().Len() < 2 {
+		// A manipulator receives the destination and the source at least.
+		return nil, logger.Errorf("%v: function %v cannot use for %v func", p.fset.Position(pos), funcName, optName)
+	}
+
 	additionalArgs := make([]types.Type, sig.Params().Len()-2)
 	for i := 0; i < sig.Params().Len()-2; i++ {
 		additionalArgs[i] = sig.Params().At(i + 2).Type()
